@@ -7,7 +7,7 @@
 (* rest of the trace is still examined.  The trace is accepted iff no      *)
 (* MISMATCH line was printed and every line was consumed (postcondition).  *)
 (***************************************************************************)
-EXTENDS Codecs, Json, IOUtils, TLC
+EXTENDS Facade, Json, IOUtils, TLC
 
 Rec == ndJsonDeserialize(IOEnv.TRACE)
 
@@ -24,6 +24,7 @@ Check(e) ==
          [] e.g = "text"  -> CheckText(e)
          [] e.g = "float" -> CheckFloat(e)
          [] e.g = "codec" -> CheckCodec(e)
+         [] e.g = "fac"   -> CheckFac(e)
          [] OTHER -> [unknown_group |-> FALSE]
 
 Fails(c) == LET cc == c IN {f \in DOMAIN cc : ~cc[f]}
